@@ -17,31 +17,31 @@ TIERS = {
             "thorough": {"runs": 3000, "budget_s": 1500, "run_timeout_s": 1800}},
     "C09": {"quick": {"runs": 110, "budget_s": 240, "run_timeout_s": 900},
             "thorough": {"runs": 3000, "budget_s": 1500, "run_timeout_s": 1800}},
-    "C20": {"quick": {"runs": 300, "budget_s": 240, "run_timeout_s": 900},
+    "C20": {"quick": {"runs": 400, "budget_s": 240, "run_timeout_s": 900},
             "thorough": {"runs": 5000, "budget_s": 900, "run_timeout_s": 1800}},
-    "C13": {"quick": {"runs": 240, "budget_s": 240, "run_timeout_s": 900},
+    "C13": {"quick": {"runs": 300, "budget_s": 240, "run_timeout_s": 900},
             "thorough": {"runs": 4000, "budget_s": 900, "run_timeout_s": 1800}},
-    "C14": {"quick": {"runs": 110, "budget_s": 240, "run_timeout_s": 900},
+    "C14": {"quick": {"runs": 160, "budget_s": 240, "run_timeout_s": 900},
             "thorough": {"runs": 6000, "budget_s": 900, "run_timeout_s": 1800}},
-    "C16": {"quick": {"runs": 70, "budget_s": 240, "run_timeout_s": 900},
+    "C16": {"quick": {"runs": 90, "budget_s": 240, "run_timeout_s": 900},
             "thorough": {"runs": 5000, "budget_s": 900, "run_timeout_s": 1800}},
-    "C19": {"quick": {"runs": 500, "budget_s": 240, "run_timeout_s": 900},
+    "C19": {"quick": {"runs": 700, "budget_s": 240, "run_timeout_s": 900},
             "thorough": {"runs": 8000, "budget_s": 900, "run_timeout_s": 1800}},
-    "C18": {"quick": {"runs": 150, "budget_s": 240, "run_timeout_s": 900},
+    "C18": {"quick": {"runs": 180, "budget_s": 240, "run_timeout_s": 900},
             "thorough": {"runs": 3000, "budget_s": 900, "run_timeout_s": 1800}},
     "C12": {"quick": {"runs": 110, "budget_s": 240, "run_timeout_s": 900},
             "thorough": {"runs": 5000, "budget_s": 900, "run_timeout_s": 1800}},
-    "C07": {"quick": {"runs": 170, "budget_s": 240, "run_timeout_s": 900},
+    "C07": {"quick": {"runs": 260, "budget_s": 240, "run_timeout_s": 900},
             "thorough": {"runs": 6000, "budget_s": 900, "run_timeout_s": 1800}},
-    "C03": {"quick": {"runs": 100, "budget_s": 240, "run_timeout_s": 900},
+    "C03": {"quick": {"runs": 130, "budget_s": 240, "run_timeout_s": 900},
             "thorough": {"runs": 6000, "budget_s": 900, "run_timeout_s": 1800}},
-    "C04": {"quick": {"runs": 90, "budget_s": 240, "run_timeout_s": 900},
+    "C04": {"quick": {"runs": 120, "budget_s": 240, "run_timeout_s": 900},
             "thorough": {"runs": 6000, "budget_s": 900, "run_timeout_s": 1800}},
-    "C05": {"quick": {"runs": 50, "budget_s": 240, "run_timeout_s": 900},
+    "C05": {"quick": {"runs": 64, "budget_s": 240, "run_timeout_s": 900},
             "thorough": {"runs": 8000, "budget_s": 1500, "run_timeout_s": 1800}},
-    "C02": {"quick": {"runs": 110, "budget_s": 240, "run_timeout_s": 900},
+    "C02": {"quick": {"runs": 140, "budget_s": 240, "run_timeout_s": 900},
             "thorough": {"runs": 6000, "budget_s": 900, "run_timeout_s": 1800}},
-    "C01": {"quick": {"runs": 110, "budget_s": 240, "run_timeout_s": 900},
+    "C01": {"quick": {"runs": 140, "budget_s": 240, "run_timeout_s": 900},
             "thorough": {"runs": 6000, "budget_s": 900, "run_timeout_s": 1800}},
     "C06": {"quick": {"runs": 24, "budget_s": 240, "run_timeout_s": 900},
             "thorough": {"runs": 3000, "budget_s": 900, "run_timeout_s": 1800}},
